@@ -241,6 +241,30 @@ def f5(site):
     return prog(sites[site], subs, {"i": "u"})
 
 
+# ---------------------------------------------------------------- F7
+def f7(order, nlocals, retw):
+    """one caller makes TWO re-entrant calls of different return shapes: walk() -> value and note() -> none
+    (note calls walk back), in either order; walk's locals must survive both"""
+    locs = ["l%d" % i for i in range(nlocals)]
+    st = [["Store", l, ["Add", ["Mul", L("n"), I(10)], I(i + 1)]] for i, l in enumerate(locs)]
+    locsum = I(0)
+    for l in locs:
+        locsum = ["Add", locsum, L(l)]
+    rv = (lambda e: ["Itob", e]) if retw == "b" else (lambda e: e)
+    un = (lambda e: ["Btoi", e]) if retw == "b" else (lambda e: e)
+    call_walk = ["Store", "r", un(["Call", "walk", ["Minus", L("n"), I(1)]])]
+    call_note = ["Call", "note", ["Minus", L("n"), I(1)]]
+    calls = [call_walk, call_note] if order == "value_first" else [call_note, call_walk]
+    body = ["Seq"] + st + [["If", ["Eq", L("n"), I(0)], ["Return", rv(I(1))]]] + calls + \
+        [["Return", rv(["Add", L("r"), locsum])]]
+    walk = {"params": [["n", "val"]], "ret": retw, "body": body, "locals": locs + ["r"], "init_locals": False}
+    note_body = ["Seq", ["If", ["Eq", L("m"), I(0)], ["Return"]],
+                 ["GPut", ["Bytes", "62"], un(["Call", "walk", ["Minus", L("m"), I(1)]])], ["Return"]]
+    note = {"params": [["m", "val"]], "ret": "none", "body": note_body, "locals": [], "init_locals": False}
+    main = ["Seq", ["GPut", ["Bytes", "72"], ["Call", "walk", N]], ["TickS", 1], ["Int", 1]]
+    return prog(main, {"walk": walk, "note": note})
+
+
 F5_SITES = ["stmt", "left", "right", "nested_arg", "arg_order", "arg_order3", "bytes_left", "bytes_right", "two_calls",
             "in_cond", "in_loop", "value_top"]
 F4_POS = ["first", "in_if", "in_ifelse", "in_loop", "in_for", "in_cond", "last"]
@@ -271,4 +295,8 @@ def programs(tier="quick"):
                 out.append((1 + nl, f4(posn, ret, nl), ins))
     for site in F5_SITES:
         out.append((1, f5(site), small))
+    for order in ("value_first", "none_first"):
+        for nl in range(0, max_loc + 1):
+            for retw in ("u", "b"):
+                out.append((3 + nl, f7(order, nl, retw), _inputs((0, 1, 2, 3))))
     return out
